@@ -233,6 +233,14 @@ fn quiet_tcfg() -> TcfgP {
     t
 }
 
+/// The attacker's stack: never congestion-blocked, so that what the harness injects goes out even
+/// when the victim's acknowledgements no longer reach it.
+fn attacker_tcfg() -> TcfgP {
+    let mut t = quiet_tcfg();
+    t.cc = crate::cfg::CcKind::Fixed(1 << 30);
+    t
+}
+
 fn bystander_plans(r: &mut Rng, peer: &TcfgP) -> Vec<StreamPlan> {
     let mut v = vec![];
     for _ in 0..1 + r.usize(3) {
@@ -275,7 +283,7 @@ fn build(seed: u64, vc: &VictimCfg, r: &mut Rng, pre_inject: &[(usize, Vec<u8>)]
         specs.push(EpSpec::new(2, None));
     } else {
         let mut srv = ServerSpec::default();
-        srv.tcfg = quiet_tcfg();
+        srv.tcfg = attacker_tcfg();
         srv.tokens_sent = 1;
         srv.app = inert.clone();
         let mut e0 = EpSpec::new(0, Some(srv));
@@ -303,7 +311,7 @@ fn build(seed: u64, vc: &VictimCfg, r: &mut Rng, pre_inject: &[(usize, Vec<u8>)]
         victim_ep = 0;
         attacker_ep = 1;
         by_ep = 2;
-        let ach = w.connect(1, 0, quiet_tcfg(), inert).ok()?;
+        let ach = w.connect(1, 0, attacker_tcfg(), inert).ok()?;
         for (s, b) in pre_inject {
             w.eps[1].conns.get_mut(&ach).unwrap().c.verif_inject_frames(*s, b.clone());
         }
@@ -876,7 +884,7 @@ fn fuzz_case(seed: u64, trace: bool) -> CaseOut {
 // flood: bounded memory, bounded work
 // ---------------------------------------------------------------------------------------------
 
-fn flood_packet(r: &mut Rng, kind: u64, i: u64, a_bit: u64, out: &mut Vec<u8>) {
+fn flood_packet(r: &mut Rng, kind: u64, i: u64, a_bit: u64, sel: u64, out: &mut Vec<u8>) {
     match kind {
         0 => {
             // CID churn: every frame retires everything before it
@@ -919,8 +927,10 @@ fn flood_packet(r: &mut Rng, kind: u64, i: u64, a_bit: u64, out: &mut Vec<u8>) {
             }
         }
         5 => {
-            for _ in 0..30 {
-                Frame::Datagram { data: r.bytes(20), explicit_len: true }.encode(out);
+            // many small datagrams per packet; the payload size is fixed per case and may be zero
+            let len = dgram_flood_len(sel);
+            for _ in 0..(1000 / (len + 3)).min(400) {
+                Frame::Datagram { data: r.bytes(len), explicit_len: true }.encode(out);
             }
         }
         6 => {
@@ -952,6 +962,10 @@ fn flood_packet(r: &mut Rng, kind: u64, i: u64, a_bit: u64, out: &mut Vec<u8>) {
             Frame::ImmediateAck.encode(out);
         }
     }
+}
+
+fn dgram_flood_len(sel: u64) -> usize {
+    [0, 1, 20, 20, 200][(sel % 5) as usize]
 }
 
 const FLOOD_KINDS: &[&str] = &["cid-churn", "path-challenge", "stream-gaps", "credit-frames", "stream-cycling", "datagrams", "ack-ranges", "reset-stop", "new-token", "crypto-gaps", "ack-withhold"];
@@ -989,6 +1003,7 @@ fn flood_case(seed: u64, trace: bool, packets: u64) -> CaseOut {
         return out;
     }
     let a_bit = if vc.is_server { 0 } else { 1 };
+    let sel = r.below(5);
     if kind == 10 {
         let a = s.w.eps[s.attacker.0].addr;
         s.w.netcfg.blackhole_dst.push(a);
@@ -1006,7 +1021,7 @@ fn flood_case(seed: u64, trace: bool, packets: u64) -> CaseOut {
                 break;
             }
             let mut b = vec![];
-            flood_packet(r, kind, i, a_bit, &mut b);
+            flood_packet(r, kind, i, a_bit, sel, &mut b);
             b.truncate(1100);
             if !s.inject(2, b) {
                 break;
@@ -1017,6 +1032,16 @@ fn flood_case(seed: u64, trace: bool, packets: u64) -> CaseOut {
             let quiet = settle(&mut s.w, 400);
             if std::env::var("QV_FLOOD_TRACE").is_ok() && i < 3 {
                 eprintln!("FLOOD packet {i}: quiet={quiet} dt={} timers {:?} q={}", s.w.now - t_before, timers_desc(&s.w), s.w.net.q.peek().map(|d| format!("at+{} {}->{} len {} first {:02x}", d.at as i128 - s.w.now as i128, d.src, d.dst, d.data.len(), d.data[0])).unwrap_or_default());
+            }
+            // the hostile frames must actually have left the attacker's stack
+            let queued = |s: &Sys| s.w.eps[s.attacker.0].conns.get(&s.attacker.1).map_or(0, |c| c.c.verif_probe().inject_queued);
+            let mut extra = 0;
+            while queued(s) > 0 && extra < 2000 && s.w.step() {
+                extra += 1;
+            }
+            if queued(s) > 0 {
+                out.cnt.inc("c03.flood_stalled_attacker");
+                break;
             }
             let tx1 = s.w.eps[s.victim.0].conns.get(&s.victim.1).map_or(tx0, |c| c.c.stats().udp_tx.datagrams);
             // the attacker's own stack keeps talking (acks, probes) while the world settles
@@ -1040,12 +1065,23 @@ fn flood_case(seed: u64, trace: bool, packets: u64) -> CaseOut {
     // measure what the *victim connection and endpoint* retain by dropping harness logs first
     s.w.recent.clear();
     s.w.counted.clear();
+    s.w.mon.dgram_arrivals.clear();
     let live0 = crate::alloc::live();
     let total0 = crate::alloc::total();
     let p0 = s.w.eps[s.victim.0].conns.get(&s.victim.1).map(|c| c.c.verif_probe());
+    let sites = std::env::var("QV_ALLOC_SITES").is_ok();
+    if sites {
+        crate::alloc::sites_begin();
+    }
     let f_sent = run(&mut s, &mut r, warm, packets, &mut out, &mut viol);
     s.w.recent.clear();
     s.w.counted.clear();
+    s.w.mon.dgram_arrivals.clear();
+    if sites {
+        for (b, n, site) in crate::alloc::sites_report(12) {
+            eprintln!("ALLOCSITE {b} bytes in {n} allocations: {site}");
+        }
+    }
     let live1 = crate::alloc::live();
     let total1 = crate::alloc::total();
     let p1 = s.w.eps[s.victim.0].conns.get(&s.victim.1).map(|c| c.c.verif_probe());
@@ -1060,7 +1096,10 @@ fn flood_case(seed: u64, trace: bool, packets: u64) -> CaseOut {
         // harness bookkeeping per delivered datagram is small (monitor tables keyed by address /
         // connection); allow 128 KiB plus 96 bytes per flood packet for it, plus what the victim
         // may legitimately buffer (its windows, its datagram buffer)
-        let legit = vc.t.rwnd.min(vc.t.stream_rwnd.saturating_mul(vc.t.max_bidi + vc.t.max_uni)).min(4 << 20) as i64 * 3 + vc.t.dgram_recv_buf.unwrap_or(0).min(2 << 20) as i64 * 2 + 32768 * (vc.t.max_bidi + vc.t.max_uni).min(64) as i64;
+        // a buffered datagram costs its payload plus bookkeeping (a `Bytes` handle and its share of
+        // the packet buffer it points into): up to `buffer / payload` datagrams can be held
+        let dgram_slots = if kind == 5 { vc.t.dgram_recv_buf.unwrap_or(0).min(2 << 20) as i64 / dgram_flood_len(sel).max(1) as i64 } else { 0 };
+        let legit = 96 * dgram_slots + vc.t.rwnd.min(vc.t.stream_rwnd.saturating_mul(vc.t.max_bidi + vc.t.max_uni)).min(4 << 20) as i64 * 3 + vc.t.dgram_recv_buf.unwrap_or(0).min(2 << 20) as i64 * 2 + 32768 * (vc.t.max_bidi + vc.t.max_uni).min(64) as i64;
         let bound = 131072 + 96 * packets as i64 + legit;
         if growth > bound {
             viol.push(format!("after {packets} more flood packets ({}) the thread retains {growth} more bytes (bound {bound}); probe before {:?} after {:?}", FLOOD_KINDS[kind as usize], p0.as_ref().map(|p| (&p.streams.map_sizes, p.streams.recv_allocated, p.dgram_incoming)), p1.as_ref().map(|p| (&p.streams.map_sizes, p.streams.recv_allocated, p.dgram_incoming))));
@@ -1073,7 +1112,8 @@ fn flood_case(seed: u64, trace: bool, packets: u64) -> CaseOut {
     }
     let _ = w_sent;
     tail_checks(&mut s, &mut out, &mut viol);
-    let cfg = format!("flood={} victim={} cid_len={} limits=({},{},{},{}) dgram={:?}", FLOOD_KINDS[kind as usize], if vc.is_server { "server" } else { "client" }, vc.cid_len, vc.t.stream_rwnd, vc.t.rwnd, vc.t.max_bidi, vc.t.max_uni, vc.t.dgram_recv_buf);
+    let kind_name = if kind == 5 { format!("datagrams[{}]", dgram_flood_len(sel)) } else { FLOOD_KINDS[kind as usize].to_string() };
+    let cfg = format!("flood={} victim={} cid_len={} limits=({},{},{},{}) dgram={:?}", kind_name, if vc.is_server { "server" } else { "client" }, vc.cid_len, vc.t.stream_rwnd, vc.t.rwnd, vc.t.max_bidi, vc.t.max_uni, vc.t.dgram_recv_buf);
     for m in viol {
         out.viol.push(Violation { prop: "C03", msg: format!("{m} | {cfg}") });
     }
